@@ -199,6 +199,8 @@ PROBES = {
         (r"""out "a\sb\tc\\d\"e" """, expect('a b\tc\\d"e\n')),
         (r"""out %(a\sb (c) d)""", expect("a\\sb (c) d\n")),
         (r"""out "d\"e" """, expect('d"e\n')),
+        ("out a '' b", expect("a  b\n")),
+        ('out a "" b', expect("a  b\n")),
         (r"""out "c\\d\"e" x""", expect('c\\d"e x\n')),
     ],
     "C15": [
